@@ -17,6 +17,7 @@ import (
 	"testing"
 
 	"google.golang.org/grpc"
+	"google.golang.org/protobuf/encoding/protowire"
 	"google.golang.org/protobuf/proto"
 	"pgregory.net/rapid"
 
@@ -168,7 +169,67 @@ func c07Server(c *c07Case) *c07Obs {
 
 const c07AllocSlack = 6 << 20
 
+// propC07Unary: the reply body of a unary call. It carries no frames: the whole body is the message, its length
+// is announced by the HTTP layer, and a body that ends early comes with io.ErrUnexpectedEOF from net/http.
+func propC07Unary(c c07Case) *Outcome {
+	o := &Outcome{}
+	o.class("side=%s", c.Side)
+	if c.Origin != "" {
+		o.class("origin=%s", c.Origin)
+	}
+	if c.Chop > 0 {
+		o.class("chopped-reads")
+	}
+	o.NonTrivial = c.Abrupt || !validMsg(c.Body)
+	ch := &httpgrpc.Channel{BaseURL: baseURL, Transport: rtFunc(func(r *http.Request) (*http.Response, error) {
+		go io.Copy(io.Discard, r.Body)
+		return &http.Response{StatusCode: 200, Status: "200 OK", Proto: "HTTP/1.1", ProtoMajor: 1, ProtoMinor: 1,
+			Header: http.Header{"Content-Type": {httpgrpc.UnaryRpcContentType_V1}}, Body: bodyReader(c.Body, c.Abrupt, c.Chop), Request: r}, nil
+	})}
+	var err error
+	out := new(pb.Message)
+	panicked := ""
+	stall := guard("unary client decode", func() {
+		defer func() {
+			if r := recover(); r != nil {
+				panicked = fmt.Sprintf("%v\n%s", r, debug.Stack())
+			}
+		}()
+		err = ch.Invoke(context.Background(), mUnary, &pb.Message{}, out)
+	})
+	o.Observed = map[string]interface{}{"err": errStr(err), "body_len": len(c.Body), "abrupt": c.Abrupt}
+	if panicked != "" {
+		return o.failf("client-unary: panic: %s", panicked)
+	}
+	if stall != "" {
+		return o.failf("client-unary: stall: %s", stall)
+	}
+	if c.Abrupt {
+		if err == nil {
+			return o.failf("client-unary: the reply body ended early after %d bytes (io.ErrUnexpectedEOF from the transport), yet the call is reported as success with response %v", len(c.Body), out)
+		}
+		return o
+	}
+	want := new(pb.Message)
+	if uerr := proto.Unmarshal(c.Body, want); uerr != nil {
+		if err == nil {
+			return o.failf("client-unary: reply body of %d bytes is not a valid message, yet the call is reported as success", len(c.Body))
+		}
+		return o
+	}
+	if err != nil {
+		return o.failf("client-unary: complete well-formed reply of %d bytes rejected: %v", len(c.Body), err)
+	}
+	if string(detBytes(out)) != string(detBytes(want)) {
+		return o.failf("client-unary: response handed out differs from the reply body")
+	}
+	return o
+}
+
 func propC07(c c07Case) *Outcome {
+	if c.Side == "client-unary" {
+		return propC07Unary(c)
+	}
 	o := &Outcome{}
 	o.class("side=%s", c.Side)
 	if c.Chop > 0 {
@@ -352,7 +413,38 @@ func genC07Body(t *rapid.T, forServer bool, single ...bool) ([]byte, string) {
 }
 
 func genC07(t *rapid.T) c07Case {
-	c := c07Case{Side: rapid.SampledFrom([]string{"client-ss", "client-ss", "client-cs", "server", "server", "server-ss"}).Draw(t, "side"), Abrupt: rapid.IntRange(0, 3).Draw(t, "abrupt") == 0}
+	c := c07Case{Side: rapid.SampledFrom([]string{"client-ss", "client-ss", "client-cs", "server", "server", "server-ss", "client-unary"}).Draw(t, "side"), Abrupt: rapid.IntRange(0, 3).Draw(t, "abrupt") == 0}
+	if c.Side == "client-unary" {
+		c.Chop = rapid.SampledFrom([]int{0, 0, 0, 1, 2, 3, 5, 7}).Draw(t, "chop")
+		full := mustMarshal(genMsg(t, "umsg", 600).Build())
+		c.Body, c.Origin = full, "unary-valid"
+		switch rapid.IntRange(0, 5).Draw(t, "umutation") {
+		case 0:
+		case 1, 2:
+			// cut on a field boundary (what arrived decodes on its own), ending the way net/http ends a short body
+			var bounds []int
+			for off := 0; off < len(full); {
+				_, _, n := protowire.ConsumeField(full[off:])
+				if n <= 0 {
+					break
+				}
+				bounds = append(bounds, off)
+				off += n
+			}
+			if len(bounds) > 0 {
+				c.Body, c.Origin, c.Abrupt = full[:rapid.SampledFrom(bounds).Draw(t, "ucutbound")], "unary-cut-on-field-boundary", true
+			}
+		case 3:
+			if len(full) > 0 {
+				c.Body, c.Origin, c.Abrupt = full[:rapid.IntRange(0, len(full)-1).Draw(t, "ucut")], "unary-cut", rapid.Bool().Draw(t, "ucutabrupt")
+			}
+		case 4:
+			c.Body, c.Origin = rapid.SliceOfN(rapid.Byte(), 0, 40).Draw(t, "uraw"), "unary-raw-bytes"
+		case 5:
+			c.Body, c.Origin = append(append([]byte{}, full...), rapid.SliceOfN(rapid.Byte(), 1, 8).Draw(t, "ugarbage")...), "unary-trailing-garbage"
+		}
+		return c
+	}
 	c.Chop = rapid.SampledFrom([]int{0, 0, 0, 1, 2, 3, 5, 7}).Draw(t, "chop")
 	c.MaxRecv = !strings.HasPrefix(c.Side, "server") && rapid.IntRange(0, 3).Draw(t, "maxrecv") == 0
 	c.Body, c.Origin = genC07Body(t, strings.HasPrefix(c.Side, "server"), c.Side == "server-ss")
@@ -408,7 +500,7 @@ func recordReplyBody(s *Script) []byte {
 
 func init() { registerReplay("C07", propC07) }
 
-const c07Rule = "bodies fed to the client stream decoder (server-streaming and single-response) through a replaying RoundTripper and to the server stream decoder through httptest (a bidi method and a method that takes exactly one request): rapid byte strings, hostile 4-byte prefixes (0, -1, MinInt32, MaxInt32, limit, limit+-1), valid encodings of generated message lists + trailer mutated by truncation / bit flip / spliced hostile prefix / trailing garbage / missing trailer, " +
+const c07Rule = "bodies fed to the client stream decoder (server-streaming and single-response) and to the unary client (whole body = the message; cut at a field boundary or anywhere, ending with the transport's io.ErrUnexpectedEOF or cleanly) through a replaying RoundTripper and to the server stream decoder through httptest (a bidi method and a method that takes exactly one request): rapid byte strings, hostile 4-byte prefixes (0, -1, MinInt32, MaxInt32, limit, limit+-1), valid encodings of generated message lists + trailer mutated by truncation / bit flip / spliced hostile prefix / trailing garbage / missing trailer, " +
 	"and every truncation offset of 8 recorded real replies, each ending cleanly (io.EOF) and abruptly (io.ErrUnexpectedEOF), delivered whole or at most 1..7 bytes per Read; oracle = independent reference decoder (delivered messages are an intact prefix of the reference frames; success iff the reference sees a complete OK reply; reference error => SUT error), no panic, TotalAlloc delta <= 100 MiB limit + 8*len(body) + 6 MiB; " +
 	"non-trivial = body with >=1 complete frame that is not a complete valid OK stream, or an oversized prefix, or a cut inside a frame; distinct by case hash"
 
